@@ -161,7 +161,7 @@ func genClientIP(r *Repo) (string, error) {
 
 	// options.go: option constructor -> table appended to c.ipRanges
 	var opts []optFact
-	if of := r.Files["clientip/options.go"]; of != nil {
+	if of := r.File("clientip/options.go"); of != nil {
 		// helpers that append one of their own parameters to the ranges: name -> index of that parameter
 		paramIndex := func(fd *ast.FuncDecl, name string) int {
 			if fd.Type.Params == nil {
